@@ -4,7 +4,7 @@ CONSTANTS
   K = 0
   M = 1
   Variant = "as_coded"
-  Direct = FALSE
+  Direct = TRUE
   GenHist = TRUE
 INVARIANT Emit
 CHECK_DEADLOCK FALSE
